@@ -111,6 +111,9 @@ def sources():
     out.append(('urlRegex', ur.UrlRegex, FLAG_IS, 'BaseURL.UrlRegex (regex.I | regex.S)'))
     out.append(('urlRegex2', ur.UrlRegex2, FLAG_IS, 'BaseURL.UrlRegex2 (regex.I | regex.S)'))
     out.append(('ipUrlRegex', ur.IpUrlRegex, FLAG_IS, 'BaseURL.IpUrlRegex (regex.I | regex.S)'))
+    zu = load_class(_res('recognizers-sequence', 'recognizers_sequence', 'chinese_url.py'), 'ChineseURL')
+    out.append(('zhUrlRegex', zu.UrlRegex, FLAG_IS, 'ChineseURL.UrlRegex (regex.I | regex.S)'))
+    out.append(('zhIpUrlRegex', zu.IpUrlRegex, FLAG_IS, 'ChineseURL.IpUrlRegex (regex.I | regex.S)'))
     out.append(('urlAmbiguousTimeTerm', ur.AmbiguousTimeTerm, FLAG_IS, 'BaseURL.AmbiguousTimeTerm (regex.I | regex.S)'))
     ph = load_class(_res('recognizers-sequence', 'recognizers_sequence', 'base_phone_numbers.py'), 'BasePhoneNumbers')
     wb, nwb, ewb = ph.WordBoundariesRegex, ph.NonWordBoundariesRegex, ph.EndWordBoundariesRegex
